@@ -27,7 +27,9 @@ TERMS = {
     'X1': [('#1', 0.5), ('<3', 0.25), ('No.1', 0.25)],
 }
 UNITS = ['A1', 'A2', 'A3', 'A8', 'A10', 'A12', 'D1', 'D2', 'D3', 'O1', 'O2', 'K4', 'K5', 'Y1', 'X1']
-REGEXES = ['^A', 'D', '^[^M]', 'A[0-9]+D', 'K|Y', '[0-9]{2}', '^(A[0-9]+)+$']
+REGEXES = ['^A', 'D', '^[^M]', 'A[0-9]+D', 'K|Y', '[0-9]{2}', '^(A[0-9]+)+$',
+           # classes and escapes whose meaning depends on the case of the letter (a regex is matched as given)
+           r'A\d+D', r'\d\d$', r'^(A\d+)+$', r'^\w\d+$', r'[a-z]', r'\bA1\d']
 
 
 def mc_stage():
